@@ -646,6 +646,8 @@ int xor_hd_decode(xor_code_t *code_desc, char **data, char **parity, int *missin
       break;
     case FAIL_PATTERN_GE_HD:
     default:
+      // hd or more erasures cannot be decoded; do not report success
+      ret = -1;
       break;
   }
 
